@@ -30,7 +30,12 @@ func (c14Provider) AuthPlain(u, p string) error {
 
 type c14GCase struct {
 	Cmds []string `json:"commands"`
+	// ImmediateReject: the endpoint runs with defer_sender_reject no (MAIL opens the delivery at once)
+	ImmediateReject bool `json:"immediate_sender_reject,omitempty"`
 }
+
+// c14Immediate: the world of the current BFS (defer_sender_reject no)
+var c14Immediate bool
 
 func c14b64(s string) string { return base64.StdEncoding.EncodeToString([]byte(s)) }
 
@@ -42,6 +47,7 @@ func c14Exec(cmds []string) (state string, fp, detail string, ended bool) {
 		{Name: "auth", Args: []string{"&vauth"}},
 		{Name: "sasl_login", Args: []string{"yes"}},
 		{Name: "deliver_to", Args: []string{"&vt1"}},
+		{Name: "defer_sender_reject", Args: []string{map[bool]string{false: "yes", true: "no"}[c14Immediate]}},
 	})
 	if err != nil {
 		return "", "HARNESS:init", err.Error(), false
@@ -136,13 +142,14 @@ func c03InstallNoFaults() {
 func TestVerifC14Gate(t *testing.T) {
 	r := vx.Start("C14", "gate")
 	defer r.Finish()
-	r.Rule("explicit-state BFS over command sequences {EHLO, AUTH PLAIN ok/bad/foreign authzid, AUTH LOGIN ok/bad, MAIL, RCPT, DATA, RSET, NOOP, QUIT} on a real submission endpoint (go-smtp over a pipe) with a password provider; invariant: no MAIL/RCPT/DATA is accepted and no delivery is opened in a state without a successful AUTH. Non-trivial: distinct command sequences")
+	r.Rule("explicit-state BFS over command sequences {EHLO, AUTH PLAIN ok/bad/foreign authzid, AUTH LOGIN ok/bad, MAIL, RCPT, DATA, RSET, NOOP, QUIT} on a real submission endpoint (go-smtp over a pipe) with a password provider, with defer_sender_reject yes and no; invariant: no MAIL/RCPT/DATA is accepted and no delivery is opened in a state without a successful AUTH. Non-trivial: distinct command sequences")
 	if rp := r.Replay(); rp != nil {
 		var c c14GCase
 		if json.Unmarshal(rp, &c) != nil {
 			r.HarnessError("bad replay")
 			return
 		}
+		c14Immediate = c.ImmediateReject
 		_, fp, detail, _ := c14Exec(c.Cmds)
 		r.Eval()
 		if fp != "" {
@@ -165,46 +172,48 @@ func TestVerifC14Gate(t *testing.T) {
 	if vx.Thorough() {
 		depth = 8
 	}
-	seen := map[string]bool{}
-	frontier := [][]string{{}}
 	var states, transitions int64
 	idx := 0
-	for len(frontier) > 0 {
-		h := frontier[0]
-		frontier = frontier[1:]
-		if len(h) >= depth {
-			r.Cap("depth bound reached")
-			continue
-		}
-		for _, c := range alpha {
-			hist := append(append([]string{}, h...), c)
-			idx++
-			st, fp, detail, ended := c14Exec(hist)
-			for try := 0; fp == "C14:gate:hang" && try < 2; try++ {
-				// the 20 s last-resort deadline: believed only if it reproduces twice
-				st, fp, detail, ended = c14Exec(hist)
-			}
-			if r.Mine(idx) || true {
-				r.Eval()
-				transitions++
-				r.Nontrivial(strings.Join(hist, "|"))
-			}
-			if strings.HasPrefix(fp, "HARNESS:") {
-				r.HarnessError(fp + detail)
-				return
-			}
-			if fp != "" {
-				r.Violation(fp, detail, c14GCase{hist})
+	for _, c14Immediate = range []bool{false, true} {
+		seen := map[string]bool{}
+		frontier := [][]string{{}}
+		for len(frontier) > 0 {
+			h := frontier[0]
+			frontier = frontier[1:]
+			if len(h) >= depth {
+				r.Cap("depth bound reached")
 				continue
 			}
-			if ended {
-				continue
-			}
-			if !seen[st] {
-				seen[st] = true
-				states++
-				frontier = append(frontier, hist)
-				r.Sample(map[string]any{"commands": hist, "state": st})
+			for _, c := range alpha {
+				hist := append(append([]string{}, h...), c)
+				idx++
+				st, fp, detail, ended := c14Exec(hist)
+				for try := 0; fp == "C14:gate:hang" && try < 2; try++ {
+					// the 20 s last-resort deadline: believed only if it reproduces twice
+					st, fp, detail, ended = c14Exec(hist)
+				}
+				if r.Mine(idx) || true {
+					r.Eval()
+					transitions++
+					r.Nontrivial(fmt.Sprint(c14Immediate) + "|" + strings.Join(hist, "|"))
+				}
+				if strings.HasPrefix(fp, "HARNESS:") {
+					r.HarnessError(fp + detail)
+					return
+				}
+				if fp != "" {
+					r.Violation(fp, detail, c14GCase{hist, c14Immediate})
+					continue
+				}
+				if ended {
+					continue
+				}
+				if !seen[st] {
+					seen[st] = true
+					states++
+					frontier = append(frontier, hist)
+					r.Sample(map[string]any{"commands": hist, "state": st, "immediate_sender_reject": c14Immediate})
+				}
 			}
 		}
 	}
